@@ -319,6 +319,7 @@ type graphCase struct {
 	Edges   [][2]int
 	Order   []int // permutation applied to the construction steps
 	QueryAt []int // GetMaximalCliques is also called after this many construction steps (incremental use)
+	Mix     int   // shifts which entry point (AddUndirectedEdge, AddEdge twice, AddEdge then AddUndirectedEdge, ...) adds each edge
 }
 
 func genGraph(t *rapid.T) graphCase {
@@ -334,6 +335,7 @@ func genGraph(t *rapid.T) graphCase {
 	}
 	steps := n + len(c.Edges)
 	c.Order = rapid.Permutation(seq(steps)).Draw(t, "order")
+	c.Mix = rapid.IntRange(0, 4).Draw(t, "mix")
 	if rapid.Bool().Draw(t, "incremental") {
 		c.QueryAt = rapid.SliceOfN(rapid.IntRange(1, steps), 1, 3).Draw(t, "queryAt")
 	}
@@ -438,9 +440,20 @@ func runGraph(c graphCase, r *pb.Rec) error {
 				present |= 1 << s
 			} else {
 				e := c.Edges[s-c.N]
-				if (s+rep)%2 == 0 {
+				// the same undirected edge through different entry points and repeated insertions
+				switch (s + rep + c.Mix) % 5 {
+				case 0:
 					g.AddUndirectedEdge(e[0], e[1])
-				} else {
+				case 1:
+					g.AddUndirectedEdge(e[1], e[0])
+				case 2: // one direction first, then the undirected call
+					g.AddEdge(e[0], e[1])
+					g.AddUndirectedEdge(e[0], e[1])
+				case 3: // both directions as two directed edges
+					g.AddEdge(e[1], e[0])
+					g.AddEdge(e[0], e[1])
+				default: // inserted twice
+					g.AddUndirectedEdge(e[0], e[1])
 					g.AddUndirectedEdge(e[1], e[0])
 				}
 				adj[e[0]][e[1]], adj[e[1]][e[0]] = true, true
